@@ -288,10 +288,11 @@ func (s *crSess) barrier() {
 	if s.db == nil {
 		return
 	}
-	for i := 0; badger.VerifImmCount(s.db) > 0; i++ {
+	deadline := time.Now().Add(120 * time.Second)
+	for badger.VerifImmCount(s.db) > 0 {
 		time.Sleep(100 * time.Microsecond)
-		if i > 100000 {
-			panic("flusher stuck")
+		if time.Now().After(deadline) {
+			panic("[impl-hang] the flusher did not finish within 120 s")
 		}
 	}
 }
@@ -1372,7 +1373,7 @@ func (s *crSess) c07(emit func(string, string), fail func(string)) {
 		}
 	}
 	// ---- read-write with other compaction settings
-	o := s.opts(s.dir).WithNumLevelZeroTables(3).WithNumLevelZeroTablesStall(9).WithBaseTableSize(1 << 20).
+	o := s.opts(s.dir).WithNumLevelZeroTables(3).WithNumLevelZeroTablesStall(150).WithBaseTableSize(1 << 20).
 		WithLevelSizeMultiplier(10).WithBaseLevelSize(5 << 20).WithNumMemtables(3)
 	db, err := badger.Open(o)
 	if err != nil {
